@@ -123,6 +123,7 @@ func main() {
 			}
 		}()
 		f(c)
+		commonLints(c)
 		runSibling(c)
 		return c.Finish()
 	}()
